@@ -267,6 +267,33 @@ impl Prop for C19 {
                     out.violation("C19:no-diagnostic", &format!("non-zero exit ({}) without any diagnostic on stderr", why), cj());
                     return;
                 }
+                // `--quiet` changes nothing else: the same failing run without it has the same
+                // exit status and the same diagnostic
+                // (usage errors of the option parser echo the options given and are left out)
+                if quiet && !why.starts_with("--") && rng.chance(1, 2) {
+                    let args2: Vec<String> = args.iter().filter(|a| a.as_str() != "--quiet" && a.as_str() != "-q").cloned().collect();
+                    if args2.len() < args.len() {
+                        let run2 = Command::new(&cli)
+                            .args(&args2)
+                            .env("XDG_CONFIG_HOME", format!("{}/config", home))
+                            .env("XDG_CACHE_HOME", format!("{}/cache", home))
+                            .env("HOME", &home)
+                            .env_remove("RUST_LOG")
+                            .current_dir(&dir)
+                            .output();
+                        out.eval();
+                        if let Ok(o2) = run2 {
+                            let stderr2 = String::from_utf8_lossy(&o2.stderr).to_string();
+                            if o2.status.code() != code || stderr2 != stderr {
+                                let mut c = cj();
+                                c["stderr_without_quiet"] = json!(crate::util::trunc(&stderr2, 800));
+                                out.violation("C19:quiet-changes-the-diagnostic", &format!("failing run ({}): exit {:?} with --quiet, {:?} without; the diagnostics differ", why, code, o2.status.code()), c);
+                                return;
+                            }
+                            out.feat("quiet_failure_compared_with_non_quiet");
+                        }
+                    }
+                }
                 out.feat(&format!("fail:{}", why.replace(' ', "_")));
             }
             Expected::Ok { pretty, json } => {
